@@ -104,7 +104,7 @@ def apply_dev(text: str, kind: str, dev: str) -> str:
 
 
 def render(doc: dict, flavor: int = 0) -> str:
-    e = '\r\n' if doc['eol'] == 'crlf' else '\n'
+    e = {'crlf': '\r\n', 'crcrlf': '\r\r\n'}.get(doc['eol'], '\n')
     out = []
     for j, k in enumerate(doc['lines'], 1):
         t = line_text(k, flavor, j)
